@@ -18,7 +18,8 @@
 use core::fmt::Debug;
 use vstd::arithmetic::div_mod::*;
 #[verifier::external_body]
-fn shim_id_or_default(id: Option<&'static str>) -> (r: &'static str) ensures r == (if id is Some { id->Some_0 } else { DEFAULT_ID }) { id.unwrap_or_else(|| DEFAULT_ID) }
+fn shim_id_or_default<'a>(id: Option<&'a str>) -> (r: &'a str) ensures r == id_or_default(id) { id.unwrap_or_else(|| DEFAULT_ID) }
+spec fn id_or_default<'a>(id: Option<&'a str>) -> &'a str { if id is Some { id->Some_0 } else { DEFAULT_ID } }
 #[verifier::external_body]
 fn shim_concat2(a: Vec<u8>, b: Vec<u8>) -> (r: Vec<u8>) ensures r@ == a@ + b@ { [a, b].concat() }
 #[verifier::external_body]
@@ -137,6 +138,7 @@ proof fn lemma_key_consts() ensures val4(SM2_N@) == N(), val4(SM2_N_MINUS_TWO@) 
 {
     assert(val4(SM2_N@) == N() && val4(SM2_N_MINUS_TWO@) == N() - 2 && val4(SM2_ONE@) == 1) by(compute);
 }
+//@section spec
 spec fn ct_c2(ct: Seq<u8>, compressed: bool, model: Sm2Model) -> Seq<u8> {
     match model { Sm2Model::C1C2C3 => ct.subrange(c1_len(compressed), ct.len() - 32), Sm2Model::C1C3C2 => ct.subrange(c1_len(compressed) + 32, ct.len() as int) }
 }
@@ -159,7 +161,7 @@ spec fn enc_from_nonce(k: int, pa: Pt, m: Seq<u8>, compressed: bool, model: Sm2M
            c == (match model { Sm2Model::C1C2C3 => c1 + c2 + c3, Sm2Model::C1C3C2 => c1 + c3 + c2 }) })
 }
 // invariants the constructors establish
-spec fn s_id(id: Option<&'static str>) -> Seq<u8> { str_bytes(if id is Some { id->Some_0 } else { DEFAULT_ID }) }
+spec fn s_id(id: Option<&'static str>) -> Seq<u8> { str_bytes(id_or_default(id)) }
 spec fn pk_ok(k: Sm2PublicKey) -> bool { valid(k.point) && val4(k.point.z@) != 0 }
 spec fn sk_ok(k: Sm2PrivateKey) -> bool { 1 <= val4(k.d@) <= N() - 2 && pk_ok(k.public_key) && abs(k.public_key.point) == g_smul(val4(k.d@), G()) }
 //@section code gm-sm2/src/key.rs
@@ -174,6 +176,12 @@ struct Sm2PublicKey {
 }
 
 impl Sm2PublicKey {
+    fn value(&self) -> (r: &Point)
+        ensures *r == self.point
+    {
+        &self.point
+    }
+
     fn new(pk: &[u8]) -> (res: Sm2Result<Sm2PublicKey>)
         ensures res is Ok ==> pk_ok(res->Ok_0) && sec1_decodes(pk@, abs(res->Ok_0.point)),
             (pk@.len() != 33 && pk@.len() != 65) ==> res is Err,
@@ -553,7 +561,7 @@ fn public_from_private(sk: &U256) -> (res: Sm2Result<Sm2PublicKey>)
         Err(Sm2Error::InvalidPublic)
     }
 }
-//@section spec local
+//@section spec
 // ======================================================================================================
 // Scheme-level theorems (spec only, fully proved from the group axioms of sm2_math, ax_inv_n and ax_g_order)
 // ======================================================================================================
